@@ -132,7 +132,9 @@ def one_case(rec, tap, rng, cid):
                       case)
         res[kk] = ("ok", idnt, copy.deepcopy(dict(fp)))
     rec.evaluated(dg=(spec, k, kw), nontrivial=k != 1)
-    if mode in ("full", "interval") and rng.random() < .25:
+    # (weighting off: with weighting the objective itself depends on k and
+    #  has a second minimum near 7 E, see the twin logic below)
+    if mode in ("full", "interval") and not wcp and rng.random() < .3:
         direct_fitter(rec, spec, full, mk, p_exp, k, kw, cp_user, e0, case)
     a, b = res[k], res[1.0]
     if a[0] != b[0] or a[0] == "exc":
